@@ -13,8 +13,11 @@ EXTENDS Integers, Sequences, FiniteSets, TLC, Json, CSV, IOUtils
 
 CONSTANTS MaxLen, Part     \* Part: "accept" | "strbody" | "near" | "trees"; for "near" MaxLen is the number of edits (1 or 2)
 
-Syms == <<"{", "}", "[", "]", ":", ",", "q", "b", "a", "1", "0", "-", ".", "e", "T", "N", " ", "U", "V", "W">>
+Syms == <<"{", "}", "[", "]", ":", ",", "q", "b", "a", "1", "0", "-", ".", "e", "T", "N", " ", "U", "V", "W", "F", "X">>
 NS == Len(Syms)
+NSAcc == 20      \* the exhaustive part runs over the first 20 symbols
+\* F = form feed (a control character: white space for Go's unicode.IsSpace but not for JSON, not allowed raw inside a string either),
+\* X = byte 0xA0 (no-break space in Latin-1; not white space, inside a string an ordinary byte)
 \* q = double quote, b = backslash, T = true, N = null,
 \* U = ud800 (high surrogate escape body), V = udc00 (low surrogate), W = u0041: after a backslash they form \uXXXX escapes
 
@@ -29,6 +32,7 @@ StrBody(s, i) ==        \* after the opening quote
   LET c == Sy(s, i) IN
   CASE c = "$" -> 0
     [] c = "q" -> i + 1
+    [] c = "F" -> 0
     [] c = "b" -> (IF Sy(s, i + 1) \in {"q", "b", "T", "N", "U", "V", "W"} THEN StrBody(s, i + 2) ELSE 0)   \* \" \\ \t(rue) \n(ull) \uXXXX
     [] OTHER -> StrBody(s, i + 1)
 RECURSIVE Digits(_,_)
